@@ -57,6 +57,11 @@ static void add_binary_cases() {
     {"operator-=(vector)", [](SU_vector& a, SU_vector& b) { a -= b; }},
     {"operator+=(proxy)", [](SU_vector& a, SU_vector& b) { a += b * 2.0; }},
     {"operator-=(proxy)", [](SU_vector& a, SU_vector& b) { a -= -b; }},
+    {"operator+=(rvalue-proxy)", [](SU_vector& a, SU_vector& b) { a += std::move(b) * 2.0; }},
+    {"operator-=(rvalue-proxy)", [](SU_vector& a, SU_vector& b) { a -= -std::move(b); }},
+    {"operator+=(rvalue-sum-proxy)", [](SU_vector& a, SU_vector& b) { SU_vector c(b); a += std::move(c) + b; }},
+    {"operator-=(rvalue-elementwise-proxy)", [](SU_vector& a, SU_vector& b) { SU_vector c(b); a -= squids::ElementwiseProduct(b, std::move(c)); }},
+    {"operator+=(function-result-proxy)", [](SU_vector& a, SU_vector& b) { a += SU_vector::Identity(b.Dim()) * 0.5; }},
     {"operator+=(commutator-proxy)", [](SU_vector& a, SU_vector& b) { a += iCommutator(b, b); }},
     {"Evolve(op,t)(construct)", [](SU_vector& a, SU_vector& b) { SU_vector r = a.Evolve(b, 0.7); use(r); }},
     {"Evolve(op,t)(assign-empty)", [](SU_vector& a, SU_vector& b) { SU_vector r; r = a.Evolve(b, 0.7); use(r); }},
